@@ -3,7 +3,8 @@
    against.
 
    Go code modelled (as it is in /repo NOW, i.e. after the fix: commits for the duplicated tag header,
-   the nil hover contents, the target branch of Type.ReadFrom, bare string arguments in ClearString):
+   the nil hover contents, the target branch of Type.ReadFrom, bare string arguments in ClearString,
+   argument lists mixing bare values and components in the NBT form):
      Message.MarshalNBT / the reflection encoder of package nbt applied to the three struct shapes
         (translateMsg, rawMsgStruct, and the plain Message struct used for list elements)   -> to_nbt
      Message.WriteTo (pk.NBT, network format)                                               -> wire
@@ -107,18 +108,12 @@ Fixpoint no_bare (m : msg) : bool :=
       && forallb no_bare e
   end.
 
-(* every argument list is all components or all strings (a mixed list has no NBT list image) *)
+(* an argument list holding both components and bare strings: the elements of a TagList have ONE type, so
+   Message.MarshalNBT (nbtArgs, repo fix for C17.nbt.mixed-args) writes the bare strings of such a list as
+   text components; every other list is written as it is *)
 Definition is_AM (x : arg) : bool := match x with AM _ => true | AS _ => false end.
-Definition args_homog (w : list arg) : bool :=
-  match w with [] => true | x :: _ => forallb (fun y => Bool.eqb (is_AM y) (is_AM x)) w end.
-Fixpoint homog (m : msg) : bool :=
-  match m with
-  | Msg _ _ h _ w e =>
-      match h with Some (_, v) => homog v | None => true end
-      && args_homog w
-      && forallb (fun x => match x with AM m' => homog m' | AS _ => true end) w
-      && forallb homog e
-  end.
+Definition mixed_args (w : list arg) : bool :=
+  existsb is_AM w && existsb (fun x => negb (is_AM x)) w.
 
 (* ------------------------------------------------------------------------------------------ *)
 (* NBT: tree, textbook encoder, reader, well-formedness (specification side)                  *)
@@ -337,9 +332,14 @@ Definition style_fields (s : style) : list (str * tag) :=
 (* element tag of a []any argument list: getTagType looks at the FIRST element only *)
 Definition arg_id (x : arg) : N := match x with AM _ => idCompound | AS _ => idString end.
 
+(* a bare string argument z as a list element: nbtArgs turns it into Text(z) when the list is mixed
+   (Translate == "": the rawMsgStruct shape, "text" always written); otherwise a TagString *)
+Definition arg_str_tag (mx : bool) (z : str) : tag := if mx then TComp [(k_text, TStr z)] else TStr z.
+
 (* force_text = the struct shape has no omitempty on "text": rawMsgStruct (Translate == "").  Since repo fix
    9a422e7 the list encoder calls the elements' MarshalNBT (before it wrote the plain Message struct), so the
-   elements of "with" and "extra", like the value of a hover event, choose their shape by their own Translate. *)
+   elements of "with" and "extra", like the value of a hover event, choose their shape by their own Translate
+   and normalise their own argument lists. *)
 Fixpoint fields_of (force_text : bool) (m : msg) : list (str * tag) :=
   match m with
   | Msg t s h tr w e =>
@@ -355,8 +355,11 @@ Fixpoint fields_of (force_text : bool) (m : msg) : list (str * tag) :=
       ++ match w with
          | [] => []
          | x0 :: _ =>
-             [(k_with, TList (arg_id x0)
-                 (map (fun x => match x with AM m' => TComp (fields_of (is_nil (m_translate m')) m') | AS z => TStr z end) w))]
+             [(k_with, TList (if mixed_args w then idCompound else arg_id x0)
+                 (map (fun x => match x with
+                                | AM m' => TComp (fields_of (is_nil (m_translate m')) m')
+                                | AS z => arg_str_tag (mixed_args w) z
+                                end) w))]
          end
       ++ match e with
          | [] => []
@@ -365,7 +368,7 @@ Fixpoint fields_of (force_text : bool) (m : msg) : list (str * tag) :=
   end.
 
 (* the components whose NBT image is a well-formed document: every string shorter than 2^15 bytes (the
-   length prefix is an int16), every list shorter than 2^31, no mixed argument list *)
+   length prefix is an int16), every list shorter than 2^31 *)
 Definition style_ok (s : style) : bool :=
   str_ok (s_font s) && str_ok (s_color s) && str_ok (s_insertion s)
   && match s_click s with Some (a, v) => str_ok a && str_ok v | None => true end.
@@ -375,7 +378,7 @@ Fixpoint msg_ok (m : msg) : bool :=
       str_ok t && style_ok s
       && match h with Some (a, v) => str_ok a && msg_ok v | None => true end
       && str_ok tr
-      && (lenN w <? 2^31) && args_homog w
+      && (lenN w <? 2^31)
       && forallb (fun x => match x with AM m' => msg_ok m' | AS z => str_ok z end) w
       && (lenN e <? 2^31) && forallb msg_ok e
   end.
@@ -400,13 +403,14 @@ Definition wire (m : msg) : list N := enc_net (to_nbt m).
 Definition wire_named (m : msg) : list N := enc_named [] (to_nbt m).
 
 (* the checks the encoder of package nbt makes while writing (it returns an error, nothing of the value
-   reaches the caller of MarshalNBT): strings and names longer than MaxInt16, lists whose elements do
-   not all have the tag type of the first.  wire_opt / type_write_opt are WriteTo including that
-   outcome. *)
+   reaches the caller of MarshalNBT): strings and names longer than MaxInt16.  (Its refusal of a list
+   whose elements do not all have the tag type of the first cannot be reached from a component any
+   more: the lists of to_nbt are homogeneous by construction, see wf_fields.)  wire_opt /
+   type_write_opt are WriteTo including that outcome. *)
 Fixpoint enc_checks (t : tag) : bool :=
   match t with
   | TStr s => lenN s <? 2^15
-  | TList et items => forallb (fun x => (tag_id x =? et) && enc_checks x) items
+  | TList _ items => forallb enc_checks items
   | TComp fs => forallb (fun nf => (lenN (fst nf) <? 2^15) && enc_checks (snd nf)) fs
   | _ => true
   end.
